@@ -311,25 +311,105 @@ def Good (c : Core) (N : List Nat) (s : GS) : Prop :=
 def FinalOk (c : Core) (s : GS) : Prop :=
   (s.alloc = 0 ∨ s.alloc + c.overhead ≤ s.free) ∧ (0 < s.count → s.alloc + c.overhead < s.free)
 
-theorem fits_good (c : Core) (hv : c.ovSafe = false) (N : List Nat) (s : GS) (L : Nat) (hL : L ∈ N)
+theorem subW_eq {a b : Nat} (h1 : b ≤ a) (h2 : a < W) : subW a b = a - b := by
+  unfold subW; unfold W at h2; omega
+
+/-- (fixed variant only) every GPU still in `gpusWithSpace` has `overhead ≤ free`, so that
+    `free - overhead` does not wrap.  `frees` is the (immutable) list of free-memory figures. -/
+def WsOk (c : Core) (frees : List Nat) (ws : List Nat) : Prop :=
+  c.ovSafe = true → ∀ g ∈ ws, ∀ f, frees[g]? = some f → c.overhead ≤ f
+
+theorem lookup_mem {ws : List Nat} {gs : List GS} {p g : Nat} {s : GS}
+    (h : lookup ws gs p = some (g, s)) : g ∈ ws := by
+  unfold lookup at h
+  split at h
+  · cases h
+  · rename_i g0 hg0
+    split at h
+    · cases h
+    · injection h with h
+      injection h with h1 _
+      subst h1
+      exact List.mem_of_getElem? hg0
+
+theorem placeLayer_mem (c : Core) (gs : List GS) (i L : Nat) :
+    ∀ (j : Nat) (ws : List Nat) (r : Option Nat) (ws' : List Nat),
+      placeLayer c gs i L j ws = (r, ws') →
+      (∀ x ∈ ws', x ∈ ws) ∧ (∀ g, r = some g → g ∈ ws) := by
+  intro j
+  induction j with
+  | zero =>
+    intro ws r ws' h
+    simp only [placeLayer, Prod.mk.injEq] at h
+    obtain ⟨h1, h2⟩ := h
+    subst h1; subst h2
+    exact ⟨fun x hx => hx, fun g hg => by cases hg⟩
+  | succ j ih =>
+    intro ws r ws' h
+    unfold placeLayer at h
+    simp only at h
+    have herase : ∀ x ∈ ws.eraseIdx (i % (j + 1)), x ∈ ws :=
+      fun x hx => List.mem_of_mem_eraseIdx hx
+    split at h
+    · rename_i g0 s0 hl
+      split at h
+      · simp only [Prod.mk.injEq] at h
+        obtain ⟨h1, h2⟩ := h
+        subst h1; subst h2
+        exact ⟨fun x hx => hx, fun g hg => by injection hg with hg; subst hg; exact lookup_mem hl⟩
+      · obtain ⟨a, b⟩ := ih _ _ _ h
+        exact ⟨fun x hx => herase x (a x hx), fun g hg => herase g (b g hg)⟩
+    · obtain ⟨a, b⟩ := ih _ _ _ h
+      exact ⟨fun x hx => herase x (a x hx), fun g hg => herase g (b g hg)⟩
+
+theorem placeOut_mem (c : Core) (gs : List GS) (ws : List Nat) (lc need : Nat) :
+    ∀ (j : Nat) (g : Nat), placeOut c gs ws lc need j = some g → g ∈ ws := by
+  intro j
+  induction j with
+  | zero => intro g h; simp [placeOut] at h
+  | succ j ih =>
+    intro g h
+    unfold placeOut at h
+    split at h
+    · rename_i g0 s0 hl
+      split at h
+      · injection h with h1
+        subst h1
+        exact lookup_mem hl
+      · exact ih _ h
+    · exact ih _ h
+
+theorem fits_good (c : Core) (N : List Nat) (s : GS) (L : Nat) (hL : L ∈ N)
+    (hov : c.ovSafe = true → c.overhead ≤ s.free)
     (hg : Good c N s) (hf : fits c s L = true) :
     Good c N { s with alloc := wr (s.alloc + L), count := s.count + 1 } := by
   obtain ⟨hok, hroom⟩ := hg
   refine ⟨?_, hroom⟩
   have hr := hroom L hL
   unfold fits at hf
-  simp only [hv, Bool.false_eq_true, ↓reduceIte, decide_eq_true_eq] at hf
   unfold OkG at hok ⊢
   unfold Room W at hr
-  simp only [hv, Bool.false_eq_true, ↓reduceIte] at hr
-  unfold wr at hf ⊢
-  simp only
-  right
-  rcases hok with ⟨h0, _⟩ | ⟨h1, _⟩
-  · omega
-  · omega
+  cases hv : c.ovSafe with
+  | false =>
+    simp only [hv, Bool.false_eq_true, ↓reduceIte, decide_eq_true_eq] at hf hr
+    unfold wr at hf ⊢
+    simp only
+    right
+    rcases hok with ⟨h0, _⟩ | ⟨h1, _⟩
+    · omega
+    · omega
+  | true =>
+    have hle := hov hv
+    simp only [hv, ↓reduceIte, decide_eq_true_eq] at hf hr
+    rw [subW_eq hle (by unfold W; omega)] at hf
+    unfold wr at hf ⊢
+    simp only
+    right
+    rcases hok with ⟨h0, _⟩ | ⟨h1, _⟩
+    · omega
+    · omega
 
-theorem admit_good (c : Core) (hv : c.ovSafe = false) (N : List Nat) (L0 : Nat) (hL0 : L0 ∈ N) :
+theorem admit_good (c : Core) (N : List Nat) (L0 : Nat) (hL0 : L0 ∈ N) :
     ∀ (gpus : List Gpu) (i : Nat) (ws : List Nat),
       (∀ g ∈ gpus, ∀ L ∈ N, Room c g.free g.minimum L) →
       ∀ s ∈ (admit c i gpus ws).2, Good c N s := by
@@ -356,41 +436,102 @@ theorem admit_good (c : Core) (hv : c.ovSafe = false) (N : List Nat) (L0 : Nat) 
       · refine ⟨?_, hg⟩
         have hr := hg L0 hL0
         unfold Room W at hr
-        simp only [hv, Bool.false_eq_true, ↓reduceIte] at hr
         unfold admitReject at hadm
-        simp only [hv, Bool.false_eq_true, ↓reduceIte, decide_eq_false_iff_not, Nat.not_lt] at hadm
-        unfold admitNeed wr at hadm
-        unfold OkG wr
+        unfold OkG
         simp only
         right
-        omega
+        cases hv : c.ovSafe with
+        | false =>
+          simp only [hv, Bool.false_eq_true, ↓reduceIte, decide_eq_false_iff_not, Nat.not_lt] at hadm hr
+          unfold admitNeed wr at hadm
+          unfold wr
+          omega
+        | true =>
+          simp only [hv, ↓reduceIte, Bool.or_eq_false_iff, decide_eq_false_iff_not, Nat.not_lt] at hadm hr
+          obtain ⟨h1, h2⟩ := hadm
+          rw [subW_eq h1 (by unfold W; omega)] at h2
+          unfold wr at h2 ⊢
+          omega
       · exact ih (i + 1) (ws ++ [i]) hrest s hs
 
-theorem layerLoop_good (c : Core) (hv : c.ovSafe = false) (N : List Nat) : ∀ (Ls : List Nat) (i : Nat) (st : St),
+theorem admit_ws (c : Core) (all : List Gpu) : ∀ (rest : List Gpu) (i : Nat) (ws : List Nat),
+    (∀ k, rest[k]? = all[i + k]?) → WsOk c (all.map (·.free)) ws →
+    WsOk c (all.map (·.free)) (admit c i rest ws).1 := by
+  intro rest
+  induction rest with
+  | nil => intro i ws _ h; simpa [admit] using h
+  | cons g rest ih =>
+    intro i ws hidx h
+    have hshift : ∀ k, rest[k]? = all[i + 1 + k]? := by
+      intro k
+      have := hidx (k + 1)
+      rw [List.getElem?_cons_succ] at this
+      rw [this]
+      congr 1
+      omega
+    rw [admit]
+    cases hadm : admitReject c g (if ws.isEmpty then c.gzo else 0) with
+    | true =>
+      simp only [↓reduceIte]
+      exact ih (i + 1) ws hshift h
+    | false =>
+      simp only [Bool.false_eq_true, ↓reduceIte]
+      apply ih (i + 1) (ws ++ [i]) hshift
+      intro hv x hx f hf
+      simp only [List.mem_append, List.mem_singleton] at hx
+      rcases hx with hx | rfl
+      · exact h hv x hx f hf
+      · have h0 := hidx 0
+        simp only [List.getElem?_cons_zero, Nat.add_zero] at h0
+        rw [List.getElem?_map, ← h0] at hf
+        simp only [Option.map_some, Option.some.injEq] at hf
+        subst hf
+        unfold admitReject at hadm
+        simp only [hv, ↓reduceIte, Bool.or_eq_false_iff, decide_eq_false_iff_not, Nat.not_lt] at hadm
+        exact hadm.1
+
+theorem WsOk.sub {c : Core} {frees : List Nat} {ws ws' : List Nat} (h : WsOk c frees ws)
+    (hs : ∀ x ∈ ws', x ∈ ws) : WsOk c frees ws' :=
+  fun hv g hg f hf => h hv g (hs g hg) f hf
+
+theorem layerLoop_good (c : Core) (N : List Nat) (frees : List Nat) :
+    ∀ (Ls : List Nat) (i : Nat) (st : St),
     (∀ L ∈ Ls, L ∈ N) → (∀ s ∈ st.gs, Good c N s) →
-    ∀ s ∈ (layerLoop c i Ls st).gs, Good c N s := by
+    st.gs.map (·.free) = frees → WsOk c frees st.ws →
+    let r := layerLoop c i Ls st
+    (∀ s ∈ r.gs, Good c N s) ∧ WsOk c frees r.ws := by
   intro Ls
   induction Ls with
-  | nil => intro i st _ h; simpa [layerLoop] using h
+  | nil => intro i st _ h _ hw; simpa [layerLoop] using ⟨h, hw⟩
   | cons L rest ih =>
-    intro i st hN h
+    intro i st hN h hfr hw
     have hrest : ∀ L ∈ rest, L ∈ N := fun L' h' => hN L' (by simp [h'])
     simp only [layerLoop]
     split
-    · exact ih (i + 1) st hrest h
+    · exact ih (i + 1) st hrest h hfr hw
     · split
       · rename_i g ws hp
         obtain ⟨s0, hs0, hf⟩ := placeLayer_some c st.gs i L _ _ _ _ hp
+        obtain ⟨hsub, hmem⟩ := placeLayer_mem c st.gs i L _ _ _ _ hp
         apply ih (i + 1) _ hrest
-        apply bump_forall (Good c N) L st.gs g h
-        intro s hs
-        rw [hs0] at hs
-        injection hs with hs
-        subst hs
-        exact fits_good c hv N s0 L (hN L (by simp)) (h s0 (List.mem_of_getElem? hs0)) hf
-      · exact ih (i + 1) _ hrest h
+        · apply bump_forall (Good c N) L st.gs g h
+          intro s hs
+          rw [hs0] at hs
+          injection hs with hs
+          subst hs
+          refine fits_good c N s0 L (hN L (by simp)) ?_ (h s0 (List.mem_of_getElem? hs0)) hf
+          intro hv
+          apply hw hv g (hmem g rfl) s0.free
+          rw [← hfr, List.getElem?_map, hs0]
+          rfl
+        · show (bump L st.gs g).map (·.free) = frees
+          rw [bump_free]; exact hfr
+        · exact hw.sub hsub
+      · rename_i ws hp
+        obtain ⟨hsub, _⟩ := placeLayer_mem c st.gs i L _ _ _ _ hp
+        exact ih (i + 1) _ hrest h hfr (hw.sub hsub)
 
-theorem addGraph_final (c : Core) (hv : c.ovSafe = false) (N : List Nat) (L0 : Nat) (hL0 : L0 ∈ N) (graph : Nat)
+theorem addGraph_final (c : Core) (N : List Nat) (L0 : Nat) (hL0 : L0 ∈ N) (graph : Nat)
     (hgr : graph ≤ c.maxg) (gs : List GS) (h : ∀ s ∈ gs, Good c N s) :
     ∀ s ∈ addGraph graph gs, FinalOk c s := by
   intro s hs
@@ -400,7 +541,9 @@ theorem addGraph_final (c : Core) (hv : c.ovSafe = false) (N : List Nat) (L0 : N
   obtain ⟨hok, hroom⟩ := h s0 hs0
   have hr := hroom L0 hL0
   unfold Room W at hr
-  simp only [hv, Bool.false_eq_true, ↓reduceIte] at hr
+  have hr' : c.maxg + s0.free < 18446744073709551616 := by
+    split at hr <;> omega
+  clear hr
   unfold OkG at hok
   unfold FinalOk
   split
@@ -421,21 +564,25 @@ theorem addGraph_final (c : Core) (hv : c.ovSafe = false) (N : List Nat) (L0 : N
 def RoomAll (c : Core) (gpus : List Gpu) : Prop :=
   ∀ g ∈ gpus, ∀ L ∈ c.memOut :: c.layerSizes, Room c g.free g.minimum L
 
-theorem plan_final (c : Core) (hv : c.ovSafe = false) (gpus : List Gpu) (hroom : RoomAll c gpus) :
+theorem plan_final (c : Core) (gpus : List Gpu) (hroom : RoomAll c gpus) :
     (∀ s ∈ (plan c gpus).gs, FinalOk c s) ∧
     (plan c gpus).gs.map (·.free) = gpus.map (·.free) := by
   let N := c.memOut :: c.layerSizes
   have hmem : c.memOut ∈ N := by simp [N]
-  have hadm := admit_good c hv N c.memOut hmem gpus 0 [] hroom
-  have hloop := layerLoop_good c hv N c.layerSizes 0
+  have hadm := admit_good c N c.memOut hmem gpus 0 [] hroom
+  have hws : WsOk c (gpus.map (·.free)) (admit c 0 gpus []).1 :=
+    admit_ws c gpus gpus 0 [] (fun k => by simp) (fun _ g hg => by simp at hg)
+  have hloop := layerLoop_good c N (gpus.map (·.free)) c.layerSizes 0
     { ws := (admit c 0 gpus []).1, gs := (admit c 0 gpus []).2, lc := 0 }
-    (fun L hL => by simp [N, hL]) hadm
+    (fun L hL => by simp [N, hL]) hadm (admit_free c gpus 0 []) hws
   have hfree := layerLoop_free c c.layerSizes 0
     { ws := (admit c 0 gpus []).1, gs := (admit c 0 gpus []).2, lc := 0 }
   rw [show ({ ws := (admit c 0 gpus []).1, gs := (admit c 0 gpus []).2, lc := 0 } : St).gs
       = (admit c 0 gpus []).2 from rfl, admit_free] at hfree
+  simp only at hloop
   generalize hst : layerLoop c 0 c.layerSizes
     { ws := (admit c 0 gpus []).1, gs := (admit c 0 gpus []).2, lc := 0 } = st at hloop hfree
+  obtain ⟨hloop, hwst⟩ := hloop
   have hgP : c.gP ≤ c.maxg := by unfold Core.maxg; omega
   have hgF : c.gF ≤ c.maxg := by unfold Core.maxg; omega
   simp only [plan, hst]
@@ -446,18 +593,23 @@ theorem plan_final (c : Core) (hv : c.ovSafe = false) (gpus : List Gpu) (hroom :
   cases placed with
   | none =>
     simp only [addGraph_free]
-    exact ⟨addGraph_final c hv N c.memOut hmem _ (hgraph _) _ hloop, hfree⟩
+    exact ⟨addGraph_final c N c.memOut hmem _ (hgraph _) _ hloop, hfree⟩
   | some g =>
     simp only [addGraph_free, bump_free]
-    refine ⟨addGraph_final c hv N c.memOut hmem _ (hgraph _) _ ?_, hfree⟩
+    refine ⟨addGraph_final c N c.memOut hmem _ (hgraph _) _ ?_, hfree⟩
     split at hpl
     · obtain ⟨s0, hs0, hf⟩ := placeOut_some c st.gs st.ws st.lc c.memOut _ _ hpl
+      have hgm := placeOut_mem c st.gs st.ws st.lc c.memOut _ _ hpl
       apply bump_forall (Good c N) c.memOut st.gs g hloop
       intro s hs
       rw [hs0] at hs
       injection hs with hs
       subst hs
-      exact fits_good c hv N s0 c.memOut hmem (hloop s0 (List.mem_of_getElem? hs0)) hf
+      refine fits_good c N s0 c.memOut hmem ?_ (hloop s0 (List.mem_of_getElem? hs0)) hf
+      intro hv
+      apply hwst hv g hgm s0.free
+      rw [← hfree, List.getElem?_map, hs0]
+      rfl
     · cases hpl
 
 /-! ### sums -/
